@@ -318,7 +318,10 @@ def class_factory(id_pack, methods):
                     cursor = name_pack[:cursor].rfind('.')
                     continue
                 _class_name = name_pack[cursor + 1:]
-                _class = getattr(_module, _class_name, None)
+                # look the name up in the module's own namespace: `getattr()` would run a module-level `__getattr__`
+                # (PEP 562) with this peer-chosen name - module code, which may import - and anything that is not a
+                # module has no business answering here
+                _class = vars(_module).get(_class_name) if isinstance(_module, types.ModuleType) else None
                 if _class is not None and hasattr(_class, '__class__'):
                     class_descriptor = NetrefClass(_class)
                 break
